@@ -44,7 +44,6 @@ from vc.symexec import (forall_range, exists_range, Engine, Path, Opt, PyI, PyB,
 from vlib.common import PROVED, REFUTED, UNKNOWN
 from .util import Results, merge_and_record, solve, ret_line
 
-FID_COLLAPSED = "C04-P-sorted-columns-filters-index-collapsed-none-list"
 
 ASSUMED = [
     "statistics(pf) (ParquetFile branch, read off its source, not executed): s[stat][col] exists for the four statistics and every "
@@ -109,8 +108,24 @@ def ix(eng, base):
     return z3.Int(f"ix_{base}!{next(eng.counter)}")
 
 
+BOUND = [None]      # bounded runs: every list length is <= BOUND[0] (set by the run); None in the unbounded run
+
+
 def _is_const_int(e):
-    return z3.is_int_value(z3.simplify(e))
+    """can a fact over [0, e) be expanded completely?  (constant length, or a bounded run)"""
+    return z3.is_int_value(z3.simplify(e)) or BOUND[0] is not None
+
+
+def fa_range(n, f, name="q"):
+    if z3.is_int_value(z3.simplify(n)) or BOUND[0] is None:
+        return forall_range(0, n, f, name)
+    return z3.And(*[z3.Implies(t < n, f(z3.IntVal(t))) for t in range(BOUND[0])])
+
+
+def ex_range(n, f, name="q"):
+    if z3.is_int_value(z3.simplify(n)) or BOUND[0] is None:
+        return exists_range(0, n, f, name)
+    return z3.Or(*[z3.And(t < n, f(z3.IntVal(t))) for t in range(BOUND[0])])
 
 
 def _index_consts(fs):
@@ -254,7 +269,7 @@ class LSeq(H):
             exact = _is_const_int(self.n) and _is_const_int(o.n)
             register(p, Univ(1, lambda t: z3.Implies(e, z3.And(self.n == o.n, z3.Implies(z3.And(0 <= t, t < self.n), elem(t))))), exact)
             if exact:
-                p.axioms.append(e == z3.And(self.n == o.n, forall_range(0, self.n, elem, "eqi")))
+                p.axioms.append(e == z3.And(self.n == o.n, fa_range(self.n, elem, "eqi")))
             w = ix(eng, "w_ne")      # lists differ => they differ in length or at some position w (Skolemised definition of !=)
             p.axioms.append(z3.Implies(z3.Not(e), z3.Or(self.n != o.n, z3.And(0 <= w, w < self.n, z3.Not(elem(w))))))
             return e
@@ -398,9 +413,9 @@ def _quant(eng, p, v, is_any):
         p.axioms.append(z3.Implies(z3.Not(r), z3.Or(*[z3.And(0 <= w, w < n, g(w), z3.Not(tr(w))) for w, n, g, tr in ws])))
     if exact:
         if is_any:
-            p.axioms.append(r == z3.Or(*[exists_range(0, n, lambda j, g=g, t=t: z3.And(g(j), t(j)), "anyi") for n, g, t in fs]))
+            p.axioms.append(r == z3.Or(*[ex_range(n, lambda j, g=g, t=t: z3.And(g(j), t(j)), "anyi") for n, g, t in fs]))
         else:
-            p.axioms.append(r == z3.And(*[forall_range(0, n, lambda j, g=g, t=t: z3.Implies(g(j), t(j)), "alli") for n, g, t in fs]))
+            p.axioms.append(r == z3.And(*[fa_range(n, lambda j, g=g, t=t: z3.Implies(g(j), t(j)), "alli") for n, g, t in fs]))
     return r
 
 
@@ -453,9 +468,9 @@ def h_sorted(eng, p, args, kw, node):
     if exact:
         same = lambda a, b: z3.And(sn(a) == _isnone(x.at(b)), z3.Or(sn(a), sv(a) == _ival(eng, x.at(b))))
         p.axioms += [
-            forall_range(0, n, lambda a: forall_range(0, n, lambda b: asc(a, b), "sb"), "sa"),
-            forall_range(0, n, lambda a: exists_range(0, n, lambda b: same(a, b), "pb"), "pa"),
-            forall_range(0, n, lambda b: exists_range(0, n, lambda a: same(a, b), "qa"), "qb"),
+            fa_range(n, lambda a: fa_range(n, lambda b: asc(a, b), "sb"), "sa"),
+            fa_range(n, lambda a: ex_range(n, lambda b: same(a, b), "pb"), "pa"),
+            fa_range(n, lambda b: ex_range(n, lambda a: same(a, b), "qa"), "qb"),
         ]
     # ASSUMED: sorted() is the identity on a list that is already ascending (and None-free).  `asc` = "x is ascending and
     # None-free", defined by Skolemising its negation: not asc => some pair wa < wb is out of order or holds a None
@@ -682,6 +697,8 @@ class StatCols(H):
         k = p.ghost.get("colloop")
         if k is not None and not i.h.c.eq(k):
             raise Unsupported("inside the loop over the columns of s[stat], access to another column's list")
+        if k is None and "c0" in p.ghost and not i.h.c.eq(p.ghost["c0"]):
+            raise Unsupported("a statistics list of a column other than the arbitrary one of the postconditions is read")
         return i.h.c
 
     def getitem(self, eng, p, i, node):
@@ -717,9 +734,17 @@ def _assigned_names(body):
     return {n.id for n in ast.walk(ast.Module(body=body, type_ignores=[])) if isinstance(n, ast.Name) and isinstance(n.ctx, ast.Store)}
 
 
+def merge_lists(c, a, b):
+    """If(c, a, b) on two symbolic lists"""
+    return LSeq(z3.If(c, a.n, b.n), lambda j: merge_v(c, a.at(j), b.at(j)))
+
+
 class ColKeys(H):
-    """for col in s[stat].keys(): the body is executed ONCE for an arbitrary key k; as it may touch only k's own list (checked:
-    anything else is Unsupported) and keys are distinct, the loop's effect is  new[stat][c] = V(c)  for EVERY column c."""
+    """for col in s[stat].keys(): the body is executed ONCE, for the key that is the Skolem column c0 of the postconditions (an
+    arbitrary column).  The body may touch only that key's own list (checked: anything else is Unsupported) and keys are distinct,
+    so c0's list after the loop is what ITS iteration leaves: If(branch condition, list stored on that branch, old list) - the
+    branches of the body (e.g. `if any(x is None ...): continue`) are merged into one path.  Other columns' lists are not tracked:
+    nothing below may read them (checked)."""
 
     def __init__(self, stat):
         self.stat = stat
@@ -727,27 +752,43 @@ class ColKeys(H):
     def for_loop(self, eng, p, st):
         if p.ghost.get("colloop") is not None:
             raise Unsupported("nested loops over statistic columns")
-        k = z3.Const(f"k_col!{next(eng.counter)}", ColS)
+        k = p.ghost["c0"]
         for nm in _assigned_names(st.body):
             if nm in p.env:
                 p.env[nm] = Opaque((nm, "carried", next(eng.counter)))
         p.ghost["colloop"] = k
         p.ghost["pending"] = {}
         n_pc = len(p.pc)
+        old_lists = dict(p.ghost["lists"])
         outs = []
         for b in eng.assign(st.target, Custom(ColName(k)), p):
             outs += eng.block(st.body, [b])
-        if len(outs) != 1 or outs[0].ctl not in (None, "continue"):
-            raise Unsupported("loop over statistic columns whose body forks or leaves the loop (no per-column summary)")
+        if not outs or any(r.ctl not in (None, "continue") for r in outs):
+            raise Unsupported("loop over statistic columns whose body leaves the loop (no per-column summary)")
         r = outs[0]
+        conds = [z3.And(*q.pc[n_pc:]) if len(q.pc) > n_pc else z3.BoolVal(True) for q in outs]
+        lists = dict(old_lists)
+        skipped = dict(r.ghost.get("skipped", {}))
+        for stat in {st_ for q in outs for st_ in q.ghost.get("pending", {})}:
+            old = old_lists[stat](k)
+            vals = [q.ghost.get("pending", {}).get(stat) for q in outs]
+            cur = vals[-1].h if vals[-1] is not None else old
+            for cnd, v in reversed(list(zip(conds[:-1], vals[:-1]))):
+                cur = merge_lists(cnd, v.h if v is not None else old, cur)
+            lists[stat] = (lambda c, cur=cur: cur)
+            skips = [cnd for cnd, v in zip(conds, vals) if v is None]
+            skipped[stat] = z3.Or(*skips) if skips else z3.BoolVal(False)
+        # one path goes on: path condition as before the body (the branch conditions are exhaustive), facts of all branches kept
+        for q in outs[1:]:
+            r.axioms += [a for a in q.axioms if not any(a.eq(x) for x in r.axioms)]
+            r.ghost["univ"] = list(r.ghost.get("univ", [])) + [u for u in q.ghost.get("univ", []) if u not in r.ghost.get("univ", [])]
+            r.ghost["inexact"] = bool(r.ghost.get("inexact")) or bool(q.ghost.get("inexact"))
+            r.ghost["stat_stores"] = list(r.ghost.get("stat_stores", [])) + [x for x in q.ghost.get("stat_stores", []) if x not in r.ghost.get("stat_stores", [])]
+        r.pc[n_pc:] = [z3.Or(*conds)] if len(outs) > 1 else r.pc[n_pc:]
         r.ctl = None
-        if any(_mentions(c, k) for c in r.pc[n_pc:]):
-            raise Unsupported("loop over statistic columns: the body constrains the arbitrary column")
-        pend = r.ghost.pop("pending", {})
-        lists = dict(r.ghost["lists"])
-        for stat, v in pend.items():
-            lists[stat] = (lambda c, v=v, k=k: v.h.subst([(k, c)]))
+        r.ghost.pop("pending", None)
         r.ghost["lists"] = lists
+        r.ghost["skipped"] = skipped
         r.ghost["colloop"] = None
         for nm in _assigned_names(st.body) | {x.id for x in ast.walk(st.target) if isinstance(x, ast.Name)}:
             r.env[nm] = Opaque((nm, "after_loop", next(eng.counter)))
@@ -856,20 +897,21 @@ def run_sorted(funcs, timeout, n_rg, m_sel, collapsed="symbolic", paths_only=Fal
     eng = ListEngine(funcs=funcs, handlers=handlers, opaque_calls=False)
     p = Path()
     p.pc += [mdl.n_rg >= 0, mdl.m_sel >= 0]
-    outs = eng.run("sorted_partitioned_columns", p, [Custom(pf), Custom(filters)])
+    p.ghost["c0"] = mdl.c0
+    BOUND[0] = (max(z3.simplify(mdl.n_rg).as_long(), z3.simplify(mdl.m_sel).as_long(), 1) + 1) if (
+        z3.is_int_value(z3.simplify(mdl.n_rg)) and z3.is_int_value(z3.simplify(mdl.m_sel))) else None
+    try:
+        outs = eng.run("sorted_partitioned_columns", p, [Custom(pf), Custom(filters)])
+    except BaseException:
+        BOUND[0] = None
+        raise
     mf = _model_fn(mdl)
     if paths_only:
+        BOUND[0] = None
         return res, (0, 0, sink)
-    outside = Results()      # index obligations once more under "no list is the collapsed [None]" (outside the known finding's region)
     for ob in eng.oblig:
         st, m, secs = discharge_inst(ob.pc, ob.axioms, ob.univ, ob.inexact, ob.goal, timeout)
-        nm = "sorted_columns." + ob.name.split(".", 1)[-1]
-        res.add(nm, st, mf(m) if m is not None else None, secs, "z3", ob.note or ob.kind)
-        if "index_in_range" in nm and collapsed == "symbolic":
-            cols = _consts_of_sort([*ob.pc, ob.goal], ColS)
-            hyp = [z3.Not(COLLAPSED[s_](c)) for s_ in COLLAPSED for c in cols]
-            outside.add(nm, discharge_inst([*ob.pc, *hyp], ob.axioms, ob.univ, ob.inexact, ob.goal, timeout)[0])
-    res.outside = outside
+        res.add("sorted_columns." + ob.name.split(".", 1)[-1], st, mf(m) if m is not None else None, secs, "z3", ob.note or ob.kind)
     a, b, j = z3.Int("ix_a_skolem"), z3.Int("ix_b_skolem"), z3.Int("ix_j_skolem")
     smin, smax = mdl.spec("min", mdl.c0), mdl.spec("max", mdl.c0)
     n_listed = 0
@@ -898,6 +940,13 @@ def run_sorted(funcs, timeout, n_rg, m_sel, collapsed="symbolic", paths_only=Fal
             st, m, secs = REFUTED, None, 0.0
         res.add("sorted_columns.listed_entry_is_selected_statistics", st, dict(mf(m), differs_at=backends.model_value(m, j)) if m else None, secs,
                 detail="out[c] == {'min': min', 'max': max'}: the column's statistics of exactly the selected row groups (same index list for both)")
+        # lemma: a column whose lists were NOT re-sliced (the filter loop skips a list that holds a None) is never listed
+        sk = q.ghost.get("skipped", {})
+        lemma = z3.And(*[z3.Not(c) for c in (sk.get("min"), sk.get("max")) if c is not None]) if sk else z3.BoolVal(True)
+        st, m, secs = discharge_inst(q.pc, q.axioms, univ, inexact, lemma, timeout)
+        res.add("sorted_columns.not_resliced_column_is_never_listed", st, mf(m) if m is not None else None, secs,
+                detail="lemma for listed_entry_is_selected_statistics: listed => the filter branch did re-slice the column's min and max lists "
+                       "(a list left alone holds a None, and a None bound is never listed)")
         # (2..5) from the property text, over the spec lists
         goals = {
             "listed_implies_no_None_bound": (z3.And(smin.n == smax.n, z3.Implies(z3.And(0 <= j, j < smin.n), z3.And(z3.Not(smin.at(j).isnone), z3.Not(smax.at(j).isnone)))),
@@ -921,9 +970,14 @@ def run_sorted(funcs, timeout, n_rg, m_sel, collapsed="symbolic", paths_only=Fal
                  Univ(2, lambda t, u: z3.Implies(z3.And(0 <= t, t < u, u < smin.n),
                                                  z3.And(smin.at(t).val.z <= smin.at(u).val.z, smax.at(t).val.z <= smax.at(u).val.z))),
                  Univ(1, lambda t: z3.Implies(z3.And(0 <= t, t + 1 < smin.n), smax.at(t).val.z < smin.at(t + 1).val.z))]
+    omin, omax = mdl.orig("min", mdl.c0), mdl.orig("max", mdl.c0)
+    ft = mdl.filters_truthy
+    # with filters the column's statistics must be complete (no None in ANY row group): the filter branch leaves incomplete lists alone
+    spec_univ.append(Univ(1, lambda t: z3.Implies(ft, z3.And(z3.Implies(z3.And(0 <= t, t < omin.n), nn(omin.at(t))),
+                                                                z3.Implies(z3.And(0 <= t, t < omax.n), nn(omax.at(t)))))))
     spec_plain = [smin.n >= 1, smin.n == smax.n]
     if _is_const_int(mdl.n_rg) and _is_const_int(mdl.m_sel):       # bounded run: the spec condition is expanded completely
-        K = max(z3.simplify(mdl.n_rg).as_long(), z3.simplify(mdl.m_sel).as_long()) + 1
+        K = max(z3.simplify(mdl.n_rg).as_long(), z3.simplify(mdl.m_sel).as_long(), 1) + 1
         for u in spec_univ:
             spec_plain += [u.inst(z3.IntVal(t)) for t in range(K)] if u.arity == 1 else \
                 [u.inst(z3.IntVal(t), z3.IntVal(t2)) for t in range(K) for t2 in range(K)]
@@ -934,7 +988,8 @@ def run_sorted(funcs, timeout, n_rg, m_sel, collapsed="symbolic", paths_only=Fal
         st, m, secs = discharge_inst(q.pc, [*q.axioms, *spec_plain], q.ghost.get("univ", []) + spec_univ, bool(q.ghost.get("inexact")),
                                      z3.BoolVal(False), timeout)
         res.add("sorted_columns.disjoint_increasing_implies_listed", st, mf(m) if m is not None else None, secs,
-                detail="converse: selected statistics None-free, non-empty, min / max ascending and max[i] < min[i+1] for all i => the column is listed")
+                detail="converse: selected statistics None-free, non-empty, min / max ascending and max[i] < min[i+1] for all i "
+                       "(with filters: no None in the column's statistics of ANY row group) => the column is listed")
     n_ret = 0
     for q in outs:
         if q.ctl[0] != "ret":
@@ -952,10 +1007,11 @@ def run_sorted(funcs, timeout, n_rg, m_sel, collapsed="symbolic", paths_only=Fal
                 "no attribute of pf is assigned and no method is called on it")
         res.add("sorted_columns.returns_collected_dict", PROVED if ok else REFUTED, None, 0.0, "trace",
                 "the value returned is the dict the column loop stores into")
+    BOUND[0] = None
     return res, (n_listed, n_ret, sink)
 
 
-BOUNDED = [(2, 1, (True, False)), (2, 1, (False, True)), (1, 1, (False, False)), (2, 2, (False, False)), (2, 1, (False, False)),
+BOUNDED = [(2, 1, (True, False)), (2, 1, (False, True)), (1, 1, (False, False)), (0, 0, (False, False)), (2, 2, (False, False)), (2, 1, (False, False)),
            (3, 2, (False, False)), (1, 1, (True, False)), (1, 1, (False, True)), (2, 2, (True, False)), (2, 2, (False, True)),
            (3, 2, (True, False)), (3, 2, (False, True))]
 
@@ -978,11 +1034,7 @@ def check_sorted(ctx, funcs, timeout):
         bounded.append((f"{k} row groups, {ms} selected, collapsed(min,max)={c}", br))
         open_names -= {nm for nm in open_names if br.status(nm) == REFUTED}
 
-    def outside_ok():
-        o = unb.outside
-        return bool(o.order) and all(o.status(nm) == PROVED for nm in o.order)
-    known = {nm: (FID_COLLAPSED, outside_ok) for nm in unb.order if "index_in_range" in nm}
-    out = merge_and_record(ctx, fq, unb, bounded, known)
+    out = merge_and_record(ctx, fq, unb, bounded)
     # vacuity: with 2 row groups some path lists the column (the precondition and the listing condition are satisfiable),
     # and a must-fail obligation ("a listed column has min == max in both row groups") is refuted
     _, (_, _, sink) = run_sorted(funcs, 3000, 2, 2, (False, False), paths_only=True)
